@@ -33,3 +33,29 @@ From SJ Require Properties.C13w.
 Print Assumptions C13_read.
 Print Assumptions C13_read_ignored.
 Print Assumptions C13_never_a_value.
+
+(* ---- typed targets (Proofs/TypedPrefix*.v): either Io at once, or the same non-Ok outcome as on the full input, or the KNOWN class F18 (a data
+   error of the visitor masks the I/O error of the following end_seq/end_map): never a value ---- *)
+From SJ Require Import Model.Ty Model.DeTyped.
+From SJ Require Import Proofs.TypedPrefixBase.
+From SJ Require Proofs.TypedPrefix Proofs.TypedPrefixTotal.
+Theorem C13_typed : forall cf t p tl k,
+  let r_full := from_input_typed (mkEnv RIo TEof cf) t (p ++ tl) in
+  let r_fail := from_input_typed (mkEnv RIo (TFail k) cf) t p in
+  r_fail = TErr (Io k) 0
+  \/ (r_fail = r_full /\ exists c i, r_full = TErr c i)
+  \/ ((exists m i, r_fail = TErr (Message m) i) /\ TypedPrefix.tnotok r_full)      (* known class F18 *)
+  \/ ((exists m s, r_fail = TUnpos m s) /\ TypedPrefix.tnotok r_full).              (* F18, error never positioned *)
+Proof. exact (@TypedPrefixTotal.C13_typed_full). Qed.
+Print Assumptions C13_typed.
+
+Theorem C13_typed_never_ok : forall cf t p k d, from_input_typed (mkEnv RIo (TFail k) cf) t p <> TOk d.
+Proof. exact (@TypedPrefix.C13_typed_never_ok). Qed.
+Print Assumptions C13_typed_never_ok.
+
+Theorem C13_typed_known_F18_witness :
+  from_input_typed (mkEnv RIo (TFail 7) (mkCfg false false false false)) (TSeq (TInt U8)) [91; 51; 48; 48; 44]
+  = TErr (Message MInvalidValue) 5.
+Proof. exact (@TypedPrefix.C13_typed_known_F18_witness). Qed.
+Print Assumptions C13_typed_known_F18_witness.
+
